@@ -126,3 +126,18 @@ Print Assumptions C06_arc.
 Print Assumptions C06_chain.
 Print Assumptions C06_model_refines_spec_straight.
 Print Assumptions C06_model_refines_spec_arc.
+
+(** membership: the covering test of the slab / fault model that is compared with the implementation bit for bit is the
+    membership definition of the property text, for every number interpretation *)
+From WB Require Import Features SlabFeature SlabFeatureProofs.
+Theorem C06_membership : forall (F : Type) (NF : Num F) (lf : @line_feature F) (q : @query F),
+  lf_covers lf q =
+  (let pd := lf_distances lf q in
+   let '(th, tr, tot, _, _) := lf_local lf pd in
+   (flt (fabs (pd_distance pd)) finf || flt (pd_along pd) finf)
+   && negb (flt (fabs th) (fmul f2 feps)) && negb (flt th tr)
+   && (if lf_fault lf
+       then fault_member (pd_distance pd) (pd_along pd) th tot (q_depth q) (lf_min lf) (lf_max lf) true
+       else slab_member (pd_distance pd) (pd_along pd) tr th tot (q_depth q) (lf_min lf) (lf_max lf) true))%bool.
+Proof. intros F NF lf q. exact (covers_is_membership lf q). Qed.
+Print Assumptions C06_membership.
